@@ -398,6 +398,82 @@ def component_render_oracle(chk, sizes, nseq):
         dc_cache.template_cache = None
 
 
+def same_path_classes_oracle(chk, sizes, nrandom):
+    """Component classes produced by a class factory: DISTINCT classes with the SAME module + qualname (hence the same
+    `_class_hash`, the same import path) and DIFFERENT static templates (inline `template`, and `template_file`).  Rendered in
+    every order under several cache sizes: each render must equal a fresh compile of THAT class's template."""
+    import re
+    import django_components.cache as dc_cache
+    from django.template import Context, Template
+    from django_components import Component, registry
+    import djsetup
+    rng = chk.rng
+
+    def make(label, tpl=None, tfile=None):
+        attrs = {"get_context_data": lambda self, x=None: {"x": x}, "__module__": __name__}
+        if tpl is not None:
+            attrs["template"] = tpl
+        else:
+            attrs["template_file"] = tfile
+        cls = type("C18Twin", (Component,), attrs)      # same name, module and qualname on every call
+        cls.c18_label = label
+        return cls
+    twins = [make("Va", tpl="<i>Va:{{ x }}{{ c18_missing }}</i>"), make("Vb", tpl="<i>Vb:{{ x }}{{ c18_missing }}</i>"),
+             make("Vc", tpl="<i>Vc:{{ x }}{% if x %}!{% endif %}</i>"),
+             make("Fa", tfile="c18_twin_a.html"), make("Fb", tfile="c18_twin_b.html")]
+    other = type("C18NotATwin", (Component,), {"template": "<i>O:{{ x }}</i>", "get_context_data": lambda self, x=None: {"x": x},
+                                               "__module__": __name__})
+    other.c18_label = "O"
+    classes = twins + [other]
+    names = ["c18twin%d" % i for i in range(len(classes))]
+    for nm, cls in zip(names, classes):
+        registry.register(nm, cls)
+
+    def expected(ci, x):
+        lab = classes[ci].c18_label
+        return "%s:%s%s" % (lab, x, "!" if (lab == "Vc" and x) else "")
+    seqs = []
+    for L in range(1, 5):                               # every order of the three inline twins, up to 4 renders
+        seqs.extend(list(q) for q in itertools.product(range(3), repeat=L))
+    for L in range(1, 4):                               # the template_file twins with one inline twin
+        seqs.extend(list(q) for q in itertools.product([0, 3, 4], repeat=L))
+    for _ in range(nrandom):
+        seqs.append([rng.randrange(len(classes)) for _ in range(rng.randint(2, 10))])
+    try:
+        for seq in seqs:
+            xs = [rng.randrange(1, 100) for _ in seq]
+            via_tag = [rng.random() < 0.3 for _ in seq]
+            for size in sizes:
+                dc_cache.template_cache = None
+                with djsetup.components_settings(template_cache_size=size):
+                    out = []
+                    for ci, x, tag in zip(seq, xs, via_tag):
+                        try:
+                            if tag:
+                                out.append(Template("{%% component '%s' x=x / %%}" % names[ci]).render(Context({"x": x})))
+                            else:
+                                out.append(classes[ci].render(kwargs={"x": x}, render_dependencies=False))
+                        except Exception as e:  # noqa
+                            out.append("raised %s" % type(e).__name__)
+                    try:
+                        n = len(dc_cache.get_template_cache().cache)
+                    except Exception:  # noqa
+                        n = -1
+                got = [re.sub(r"<!--.*?-->|<i[^>]*>|</i>", "", o) for o in out]
+                exp = [expected(ci, x) for ci, x in zip(seq, xs)]
+                chk.count(("twins", tuple(seq), size), size > 0 and len(set(c for c in seq if c < len(twins))) >= 2, kind="render_same_path_classes")
+                if got != exp or n > max(size, 0):
+                    chk.fail("render-same-path-classes",
+                             "components that are distinct classes with the same module + qualname but different static templates: render "
+                             "under template_cache_size=%r differs from a fresh compile of that class's template" % size,
+                             {"kind": "twins", "classes": [c.c18_label for c in classes], "seq": seq, "x": xs, "via_tag": via_tag, "size": size,
+                              "got": got, "expected": exp, "cache_len": n})
+    finally:
+        for nm in names:
+            registry.unregister(nm)
+        dc_cache.template_cache = None
+
+
 def run_corpus(chk):
     """Minimised witnesses (incl. defects already fixed in /repo) - direct oracles only."""
     import glob
@@ -508,6 +584,7 @@ def run(tier, seed):
                      {"kind": "ct", "size": cases[i][0], "history": cases[i][1], "impl_identity": cases[i][2], "keys": cases[i][3]})
     # ---- 3. component renders ----
     component_render_oracle(chk, [0, 1, 2, 128], 300 if thorough else 60)
+    same_path_classes_oracle(chk, [0, 1, 2, 128], 400 if thorough else 100)
     phase("render")
     chk.assumptions = [
         "Template(...) is deterministic in (class, source, engine) apart from object identity (Django)",
@@ -523,7 +600,8 @@ def run(tier, seed):
              "over 4 keys (+random over 6 keys incl. same source under another Template class / engine) and every history up to length %d over "
              "{implicit default engine, default engine object, Engine instance E1, Engine instance E2} x one source (+random) x sizes "
              "{None,0,1,2,3}; component renders over 6 inline templates x sizes {0,1,2,128} with the same template strings compiled for other "
-             "engines in between. Non-trivial = at least one hit and one eviction (LRU), identity reuse with more keys than capacity "
+             "engines in between; distinct component classes with the SAME module + qualname and different static templates (inline and "
+             "template_file) in every order up to 4 renders (+random) x the same sizes. Non-trivial = at least one hit and one eviction (LRU), identity reuse with more keys than capacity "
              "(cached_template), more distinct templates than the cache holds (render). Distinct = distinct (config, sequence)."
              % (5 if thorough else 4, 60 if thorough else 40, 6 if thorough else 5, 5 if thorough else 4),
         explanation="19 theorems of Props/C18.v re-checked by coqc (10 about the list-level model, 9 about the pointer-level model incl. the "
@@ -553,6 +631,12 @@ def replay(path):
         bad = U.coq_eval_cases("C18", "replay", IMPORTS_H, "heap_case", "check_heap", [heap_case_term(case["maxsize"], ops, im)])
         print("heap model agrees with the real object:", not bad)
         return 1 if (bad or (im["outs"], im["present"], im["order"]) != (ref["outs"], ref["present"], ref["order"])) else 0
+    if kind == "twins":
+        chk = C.Check("C18", "quick", 0)
+        same_path_classes_oracle(chk, [case["size"]], 0)
+        bad = [f[2] for f in chk.failures]
+        print("same-path classes, exhaustive orders under size %r: %d failing sequences; first: %s" % (case["size"], len(bad), bad[:1]))
+        return 1 if bad else 0
     if kind == "ct":
         keys, names, ekeys, enames = make_ct_keys()
         kk = ekeys if case.get("keys") == enames else keys
